@@ -6,7 +6,8 @@
 From Coq Require Import NArith ZArith List Bool.
 From ZV.Gen Require Import Gen_C14.
 From ZV.Mem Require Import Cwksp CwkspProofs Estimate EstimateProofs LevelDefs LevelProofs DBuffers DBuffersProofs C14Final
-                          History HistoryProofs HistoryLevels CParamsProofs NegLevelProofs.
+                          History HistoryProofs HistoryLevels CParamsProofs NegLevelProofs
+                          DOwner DOwnerProofs CDictLevel C14Round2.
 Import ListNotations.
 Local Open Scope N_scope.
 
@@ -344,3 +345,126 @@ Theorem dstream_history_budget :
     (staticSize st = 0 -> live st = bufs st -> sizeof_DCtx_model st' = sizeof_ZSTD_DCtx + live st').
 Proof. exact dstream_history_budget_l. Qed.
 Print Assumptions dstream_history_budget.
+
+(* ====================================================================================================== *)
+(* round 2 *)
+
+(* ---------- what a DCtx owns, what ZSTD_sizeof_DCtx reports (models: Mem/DOwner.v) ---------- *)
+
+(* T-tie of the sizeof expression: the terms the CURRENT ZSTD_sizeof_DCtx adds for a multi-DDict set of 100 slots, a
+   local DDict of 1000 copied bytes / by reference, buffers of 7 + 9 bytes (probed by harness/c14_dump.c on a fake
+   context, regenerated on every run) are the terms of [sizeof_DCtx_full] *)
+Theorem sizeof_dctx_terms_probed :
+  c_probe_sizeof_dctx_base = sizeof_ZSTD_DCtx /\
+  c_probe_sizeof_dctx_set100 = sizeof_ZSTD_DDictHashSet + 100 * sizeof_ptr /\
+  c_probe_sizeof_dctx_local1000 = sizeof_ZSTD_DDict + 1000 /\
+  c_probe_sizeof_dctx_localref = sizeof_ZSTD_DDict /\
+  c_probe_sizeof_dctx_buf79 = 7 + 9.
+Proof. exact gen_sizeof_dctx_probe. Qed.
+Print Assumptions sizeof_dctx_terms_probed.
+
+(* dctx_sizeof_exact: for EVERY history of operations on a heap DCtx - ZSTD_d_refMultipleDDicts on / off,
+   ZSTD_DCtx_refDDict with any dictIDs (replacement of an ID, growth of the table by the load-factor rule),
+   ZSTD_DCtx_refDDict(NULL), ZSTD_DCtx_loadDictionary_advanced by copy / by reference of any size, frames of any
+   window / content size through ZSTD_decompressStream (incl. rejected ones and the oversize-shrink reallocation),
+   ZSTD_DCtx_reset(session_and_parameters), ZSTD_copyDCtx from another context - the bytes outstanding at the
+   allocator (context included) are EXACTLY what ZSTD_sizeof_DCtx reports.  In particular it never under-reports. *)
+Theorem dctx_sizeof_exact :
+  forall ops d' outs,
+    down_run (down0 0) ops = (d', outs) ->
+    live_after sizeof_ZSTD_DCtx (all_events outs) = sizeof_DCtx_full d'.
+Proof. exact dctx_sizeof_exact_l. Qed.
+Print Assumptions dctx_sizeof_exact.
+
+(* the expression in use before fix 4686148 under-reports by the whole hash set as soon as one exists *)
+Theorem dctx_sizeof_old_underreports :
+  forall ops d' outs h,
+    down_run (down0 0) ops = (d', outs) -> do_set d' = Some h ->
+    sizeof_DCtx_old d' + hs_bytes h = live_after sizeof_ZSTD_DCtx (all_events outs) /\ 0 < hs_bytes h.
+Proof. exact dctx_sizeof_old_underreports_l. Qed.
+Print Assumptions dctx_sizeof_old_underreports.
+
+(* ZSTD_freeDCtx after any history leaves nothing outstanding *)
+Theorem dctx_free_releases_all :
+  forall ops d' outs,
+    down_run (down0 0) ops = (d', outs) ->
+    live_after sizeof_ZSTD_DCtx (all_events outs ++ free_events d') = 0.
+Proof. exact dctx_free_releases_all_l. Qed.
+Print Assumptions dctx_free_releases_all.
+
+(* static_dctx_never_allocates: a STATIC DCtx never performs an allocator event (no malloc, no free), whatever is asked
+   of it, in any order: internal dictionary creation (refused: fix 11c6d2b), the multi-DDict mode set directly (refused)
+   or smuggled in by ZSTD_copyDCtx from a heap context (the copy keeps the destination's ownership fields: fix 15cfcd6;
+   ZSTD_DCtx_refDDict refuses at the allocation: fix c6e8f36), frames of any size, resets.  It never owns a local
+   dictionary or a hash set. *)
+Theorem static_dctx_never_allocates :
+  forall ops staticSz d' outs,
+    staticSz <> 0 ->
+    down_run (down0 staticSz) ops = (d', outs) ->
+    all_events outs = [] /\ do_local d' = None /\ do_set d' = None.
+Proof. exact static_dctx_never_allocates_l. Qed.
+Print Assumptions static_dctx_never_allocates.
+
+(* ---------- ZSTD_estimateDStreamSize_fromFrame ---------- *)
+
+(* a static DStream of ZSTD_estimateDStreamSize_fromFrame(frame) bytes loads the header of THAT frame without
+   memory_allocation - also single-segment frames smaller than the 1 KiB minimum window (the decoder clamps the window
+   up; the estimate was made from the raw content size), any ZSTD_d_maxBlockSize, buffered or stable output *)
+Theorem dstream_fromframe_fits :
+  forall st ss wl fcs w est,
+    frame_windowSize ss wl fcs = Some w ->
+    estimateDStreamSize_fromFrame ss wl fcs = Some est ->
+    staticSize st = est ->
+    dstream_load_header st w fcs <> DsErrMem.
+Proof. exact dstream_fromframe_fits_l. Qed.
+Print Assumptions dstream_fromframe_fits.
+
+(* ---------- static CDict from a compression level: the recipe of zstd.h is refuted ---------- *)
+
+(* known finding C14-cdict-level-estimate-vs-getcparams, closed witness: dictionary of 1000 bytes, level 3.
+   ZSTD_estimateCDictSize(1000, 3) is smaller than what ZSTD_initStaticCDict needs for ZSTD_getCParams(3, 0, 1000), the
+   block is refused; with the source-size hint 513 (the size the estimate silently assumes) the same recipe works *)
+Theorem cdict_level_recipe_refuted :
+  estimateCDictSize 0 1000 3 < estimateCDictSize_advanced 0 1000 (getCParams_public 3 0 1000) false /\
+  cdict_level_recipe 0 4096 1000 3 0 = InitNull /\
+  (exists w l, cdict_level_recipe 0 4096 1000 3 513 = InitOk w l).
+Proof. exact cdict_level_recipe_refuted_l. Qed.
+Print Assumptions cdict_level_recipe_refuted.
+
+(* ---------- non-positive maximum levels (round-1 gap: "l < 0 with L <= 0") ---------- *)
+
+Theorem sweep_nonpositive_levels : sweep_nonpos 0 = true /\ sweep_nonpos 128 = true.
+Proof. exact (conj sweep_nonpos_0 sweep_nonpos_128). Qed.
+Print Assumptions sweep_nonpositive_levels.
+
+(* ZSTD_estimateCCtxSize(L) / ZSTD_estimateCStreamSize(L) with L <= 0 cover EVERY level l <= L at every source size:
+   all negative levels share table row 0 and their estimate (no sizing function reads targetLength - neither on the
+   need side nor on the estimate side), level 0 is level 3 and dominates level 1, which dominates row 0 *)
+Theorem nonpositive_levels_covered :
+  forall rz l L s,
+    sweep_nonpos rz = true -> sweep_neg rz = true -> sweep_oneshot rz = true -> sweep_stream rz = true ->
+    (l <= L)%Z -> (L <= 0)%Z -> s <= UNKNOWN ->
+    need_simple rz l s <= estimateCCtxSize rz L /\ need_compress2 rz l s <= estimateCCtxSize rz L /\
+    need_stream rz l s <= estimateCStreamSize rz L.
+Proof. exact nonpositive_levels_covered_l. Qed.
+Print Assumptions nonpositive_levels_covered.
+
+Theorem nonpositive_levels_static_oneshot_ok :
+  forall rz start size l L s,
+    sweep_nonpos rz = true -> sweep_neg rz = true -> sweep_oneshot rz = true -> sweep_stream rz = true ->
+    (l <= L)%Z -> (L <= 0)%Z -> s <= UNKNOWN -> start mod 8 = 0 ->
+    estimateCCtxSize rz L <= size ->
+    exists w log, static_simple_session rz start size l s = SessDone w log /\
+                  allocFailed w = false /\ ws_start w = start /\ ws_end w = start + size /\
+                  Forall (entry_in start size) log.
+Proof. exact nonpositive_levels_static_oneshot_ok_l. Qed.
+Print Assumptions nonpositive_levels_static_oneshot_ok.
+
+(* ---------- raw cParams through ZSTD_compress_advanced: refuted (known finding C14-advanced-raw-cparams-vs-estimate) ---------- *)
+
+Theorem advanced_raw_cparams_refuted :
+  estimateCCtxSize_usingCParams 0 raw_witness_cp < need_advanced_raw 0 raw_witness_cp 100000 /\
+  session_need 0 (stream2_params (mkPP 3 raw_witness_cp PsAuto (ldm_zero PsAuto) 0 false true true 0 0) 100000) 100000 false true false false
+    <= estimateCCtxSize_usingCParams 0 raw_witness_cp.
+Proof. exact advanced_raw_cparams_refuted_l. Qed.
+Print Assumptions advanced_raw_cparams_refuted.
